@@ -331,7 +331,10 @@ pub fn run(args: &Args, mon: &mut Mon) -> (String, Vec<&'static str>) {
     let thorough = args.thorough();
     let scale = args.param_u64("scale", 1);
     let seed = args.seed;
-    let n: u64 = if thorough { 40_000 * scale } else { 2_000 * scale };
+    let n: u64 = match args.param_u64("runs", 0) {
+        0 => if thorough { 40_000 * scale } else { 2_000 * scale },
+        runs => runs,
+    };
     // the workers read the real clock: stamp the paths now, with day-long hop lifetimes
     let real_now = SystemTime::now().duration_since(SystemTime::UNIX_EPOCH).unwrap().as_secs() as u32;
     let pool = (0..50).find_map(|k| gen_pool_at(seed, k, 1, 600, real_now, &[200u8, 255])).expect("a pool");
